@@ -88,8 +88,13 @@ def gen_cases(rng, tier, per_fn=None):
     n = per_fn or (40 if tier == "quick" else 600)
     cases = []
     for fn in pl.FUNCS:
-        for _ in range(n):
-            cases.append(pl.gen_pair(rng, fn))
+        ka, kb = pl.kinds_of(fn)
+        uniq = list(dict.fromkeys(pl.stream_mix(ka, kb)))      # applicable streams, in a fixed order
+        for k in range(n):
+            # quick tier: stratified (round-robin over the applicable streams, so that every stream -- also the rarely drawn
+            # structural ones -- is present for every function); thorough tier: weighted random mix
+            stream = uniq[k % len(uniq)] if tier == "quick" else None
+            cases.append(pl.gen_pair(rng, fn, stream))
     return cases
 
 
@@ -391,8 +396,12 @@ def theorem_coverage(R, pid):
 def load_cases(replay, rng, tier):
     cases = []
     if replay:
-        cases.append(json.loads(open(replay).read())["case"])
-        return cases
+        case = json.loads(open(replay).read())["case"]
+        # a primer call of the same function on a rigidly shifted copy comes first, so that failures that need a call
+        # history (argument arrays reused in place, caches keyed on object identity) reproduce from the replay file
+        t = [1.0, 0.5, 0.25]
+        primer = dict(fn=case["fn"], A=pl.translate(case["A"], t), B=pl.translate(case["B"], [-x for x in t]), stream="primer")
+        return [primer, case]
     for pid in ("C10", "C11"):
         corpus = cm.VERIF / "corpus" / pid
         if corpus.exists():
